@@ -972,6 +972,13 @@ err_t dstuSign(octet sig[], const dstu_params* params, size_t ld,
 	r = y + ec->f->n;
 	s = r + ec->f->n;
 	stack = s + ec->f->n;
+	// шаг 2: проверить privkey
+	wwFrom(s, privkey, order_no);
+	if (wwIsZero(s, order_n) || wwCmp(s, ec->order, order_n) >= 0)
+	{
+		dstuEcClose(ec);
+		return ERR_BAD_PRIVKEY;
+	}
 	// шаги 4 -- 6: хэширование
 	// шаг 7: перевести hash в элемент основного поля h
 	// [алгоритм из раздела 5.9 ДСТУ]
